@@ -20,7 +20,8 @@ EntryPoints == {"json_object", "json_array_split", "json_array_i128", "json_arra
                 "form_urlencoded_parse"}
 
 ByteClasses == {"nul", "del", "x80", "xc3", "xff", "quote", "backslash", "lbracket", "lbrace", "rbracket", "rbrace", "comma", "colon",
-                "minus", "e", "dot", "cr", "lf", "space", "percent", "equals", "slash", "digit9", "letter"}
+                "minus", "e", "dot", "cr", "lf", "space", "percent", "equals", "slash", "digit9", "letter",
+                "utf8_2", "utf8_3", "utf8_4"}           \* well-formed 2-, 3- and 4-byte characters
 Positions == {0, 1, 5, 10, 25, 33, 50, 66, 75, 90, 95, 99, 1000}       \* per-mille of the seed length (1000 = at the end)
 Ops == {"identity", "truncate", "flip", "insert", "delete", "duplicate_tail", "nest", "long_line", "repeat_delim"}
 
@@ -28,7 +29,7 @@ Ops == {"identity", "truncate", "flip", "insert", "delete", "duplicate_tail", "n
 Mutations(ep, nseeds) ==
     {[ep |-> ep, seed |-> s, op |-> "identity", at |-> 0, cls |-> "letter", all |-> FALSE] : s \in 1..nseeds}
     \cup {[ep |-> ep, seed |-> s, op |-> "truncate", at |-> 0, cls |-> "letter", all |-> TRUE] : s \in 1..nseeds}          \* at every position
-    \cup {[ep |-> ep, seed |-> s, op |-> o, at |-> 0, cls |-> c, all |-> TRUE] : s \in 1..nseeds, o \in {"flip"}, c \in {"nul", "xff", "quote", "lbracket", "comma", "minus"}}
+    \cup {[ep |-> ep, seed |-> s, op |-> o, at |-> 0, cls |-> c, all |-> TRUE] : s \in 1..nseeds, o \in {"flip"}, c \in {"nul", "xff", "quote", "lbracket", "comma", "minus", "utf8_2", "utf8_4"}}
     \cup {[ep |-> ep, seed |-> s, op |-> o, at |-> p, cls |-> c, all |-> FALSE] : s \in 1..nseeds, o \in {"flip", "insert"}, p \in Positions, c \in ByteClasses}
     \cup {[ep |-> ep, seed |-> s, op |-> o, at |-> p, cls |-> "letter", all |-> FALSE] : s \in 1..nseeds, o \in {"delete", "duplicate_tail"}, p \in Positions}
     \cup {[ep |-> ep, seed |-> s, op |-> o, at |-> n, cls |-> c, all |-> FALSE] :
